@@ -723,7 +723,41 @@ class RandomPolicy:
         return self.rnd.choices(items, weights=ws, k=1)[0]
 
 
-def run_case(shape_name, oa, scratch, policy, log_trace=True, start=0, memo=(), nopop=(), catch_crash=False, conds=None):
+class _Verbose:
+    """The runtime with every logger enabled down to level 1 (elaunch -l 1): the records go to a handler that drops them
+    unformatted.  The log level is an input the listed properties are silent about, so the scheduling must not depend on it;
+    code inside `if log.isEnabledFor(..)` / debug-only branches runs only in such a run."""
+    class _Sink(logging.Handler):
+        def emit(self, record):
+            pass
+
+    def __init__(self, on):
+        self.on = on
+
+    def __enter__(self):
+        if self.on:
+            root = logging.getLogger()
+            self.saved = (root.level, root.manager.disable, list(root.handlers))
+            root.handlers[:] = [self._Sink(level=1)]
+            root.setLevel(1)
+            logging.disable(logging.NOTSET)
+        return self
+
+    def __exit__(self, *exc):
+        if self.on:
+            root = logging.getLogger()
+            root.setLevel(self.saved[0])
+            root.handlers[:] = self.saved[2]
+            logging.disable(self.saved[1])
+        return False
+
+
+def run_case(shape_name, oa, scratch, policy, log_trace=True, start=0, memo=(), nopop=(), catch_crash=False, conds=None, verbose=False):
+    with _Verbose(verbose):
+        return _run_case(shape_name, oa, scratch, policy, log_trace, start, memo, nopop, catch_crash, conds)
+
+
+def _run_case(shape_name, oa, scratch, policy, log_trace=True, start=0, memo=(), nopop=(), catch_crash=False, conds=None):
     """Runs one (shape, outcomes[, starting stage, memoization answers]) under one schedule policy.  Returns the harness
     (trace, final snapshot, flags).  catch_crash: an exception escaping the REAL stage loop (other than the verdict
     exceptions) is recorded in h.crash instead of being raised."""
